@@ -435,7 +435,9 @@ fn run_anon(trace: &[TMsg], n_ecus: u32, n_apids: u32, n_ctids: u32, ctx: &mut C
                 d.ecu = DltChar4::from_buf(&id_name(b'E', e * 3 + 1));
             }
             if let Some(x) = d.extended_header.as_mut() {
-                if t.kind == K_LOG || t.kind == K_NONVERB {
+                // every second control message shares the ids of the applications (a set-log-level request/response sent
+                // under the application's own ids), the others keep the daemon's
+                if t.kind == K_LOG || t.kind == K_NONVERB || t.n % 2 == 0 {
                     x.apid = DltChar4::from_buf(&id_name(b'P', (t.n.wrapping_mul(7)) % std::cmp::max(1, n_apids)));
                     x.ctid = DltChar4::from_buf(&id_name(b'Q', (t.n.wrapping_mul(13)) % std::cmp::max(1, n_ctids)));
                 }
@@ -636,7 +638,7 @@ impl Check for C19 {
         crate::lc::lc_finding_key(v)
     }
     fn rule() -> &'static str {
-        "two kinds of runs: (plugins) simulated traffic (<= 120 messages) in which half of the messages are shaped to hit the plugins (non-verbose frames of the repository's FIBEX for ECU 'Ecu1' incl. unknown ids/short payloads/missing extended header, SOME/IP and CAN network traces with known/unknown service/frame ids and truncated headers, segmented SOME/IP sequences (NWST/NWCH/NWEN with chunk counts/sizes {0,1,..,0xffff}, out-of-order and orphan chunks), Muniic MMSG/MDLT, SYS/JOUR rewrite targets incl. huge timestamps) through the real plugin stage as a shuttle thread between bounded channels with a random non-empty subset and order of {non-verbose, SOME/IP, CAN, Muniic, rewrite, file transfer(keepFLDA), file transfer(dropping FLDA; in a third of the runs restricted to application SYS, to SYS/FILE or to context FILE)}; traffic includes FLST/FLDA/FLFI messages of SYS/FILE, SYS/JOUR and APP1/FILE and near misses, and the expected output is the input minus exactly the data packages that a configured dropping plugin is responsible for; (anon) a simulated world (<= 1500 messages) with ECU/APID/CTID populations of 1-999 ids through the real anonymiser, then lifecycle detection on both traces; non-trivial = plugins active and more than one message; distinct = hash of the case"
+        "two kinds of runs: (plugins) simulated traffic (<= 120 messages) in which half of the messages are shaped to hit the plugins (non-verbose frames of the repository's FIBEX for ECU 'Ecu1' incl. unknown ids/short payloads/missing extended header, SOME/IP and CAN network traces with known/unknown service/frame ids and truncated headers, segmented SOME/IP sequences (NWST/NWCH/NWEN with chunk counts/sizes {0,1,..,0xffff}, out-of-order and orphan chunks), Muniic MMSG/MDLT, SYS/JOUR rewrite targets incl. huge timestamps) through the real plugin stage as a shuttle thread between bounded channels with a random non-empty subset and order of {non-verbose, SOME/IP, CAN, Muniic, rewrite, file transfer(keepFLDA), file transfer(dropping FLDA; in a third of the runs restricted to application SYS, to SYS/FILE or to context FILE)}; traffic includes FLST/FLDA/FLFI messages of SYS/FILE, SYS/JOUR and APP1/FILE and near misses, and the expected output is the input minus exactly the data packages that a configured dropping plugin is responsible for; (anon) a simulated world (<= 1500 messages) with ECU/APID/CTID populations of 1-999 ids (every second control message shares the application ids) through the real anonymiser, then lifecycle detection on both traces; non-trivial = plugins active and more than one message; distinct = hash of the case"
     }
     fn assumptions() -> Vec<&'static str> {
         vec![
